@@ -835,6 +835,39 @@ impl<'a> History<'a> {
 		self.ev("build_coinbase(key named)", json!({"wallet": wi, "named": idstr(&o.key_id), "named_status": status_str(&o.status), "fees": fees}), &format!("{:?}", r.as_ref().map(|c| c.key_id.as_ref().map(idstr)).map_err(err_kind)));
 	}
 
+	/// A miner's two requests for one block: the first builds a candidate while account X is active, the
+	/// second - after the wallet's owner switched to account Y - names that candidate's key (allowed: it is
+	/// still an unconfirmed candidate); the block is then mined with the second answer.
+	pub fn op_coinbase_rerequest_other_account(&mut self, rng: &mut Rng) {
+		let wi = rng.usize(self.w.wallets.len());
+		let accts = self.accts[wi].clone();
+		if accts.len() < 2 {
+			return;
+		}
+		let x = rng.pick(&accts).clone();
+		let y = accts.iter().find(|a| **a != x).cloned().unwrap();
+		self.set_acct(wi, &x);
+		let h = self.w.height() + 1;
+		let first = match self.w.wallets[wi].build_coinbase(&libwallet::BlockFees { fees: 0, key_id: None, height: h }) {
+			Ok(c) => c,
+			Err(_) => return,
+		};
+		self.set_acct(wi, &y);
+		let second = match self.w.wallets[wi].build_coinbase(&libwallet::BlockFees { fees: 0, key_id: first.key_id.clone(), height: h }) {
+			Ok(c) => c,
+			Err(_) => return,
+		};
+		let chain = self.w.chain();
+		let r = (|| -> Result<(), String> {
+			let prev = chain.head_header().map_err(|e| format!("{:?}", e))?;
+			let b = build_block(&chain, &prev, &[], second.output.clone(), second.kernel.clone())?;
+			chain.process_block(b, grin_chain::Options::MINE).map_err(|e| format!("{:?}", e))?;
+			Ok(())
+		})();
+		self.stat(&format!("op:coinbase-re-requested-under-another-active-account:{}", if r.is_ok() { "mined" } else { "not-mined" }));
+		self.ev("build_coinbase x2 (second names the first's key, other account active) + mine", json!({"wallet": wi, "first_account": x, "second_account": y, "same_key": first.key_id == second.key_id}), &format!("{:?}", r));
+	}
+
 	pub fn op_cancel(&mut self, rng: &mut Rng) {
 		let live: Vec<usize> = (0..self.flights.len()).filter(|i| !self.flights[*i].dead).collect();
 		if live.is_empty() {
@@ -1062,6 +1095,13 @@ impl<'a> History<'a> {
 				));
 			}
 		}
+		// "that account's outputs": a record kept under this account must carry a key of this account
+		// (the chain's truth - what a restore would attribute - goes by the key's derivation path)
+		for o in outs.iter() {
+			if o.key_id.parent_path() != path {
+				v.push(("C04|output-recorded-under-an-account-its-key-does-not-belong-to".to_string(), format!("wallet {} account {}: output {} value {} status {} is recorded under this account but its key belongs to account path {}", wi, acct, idstr(&o.key_id), o.value, status_str(&o.status), idstr(&o.key_id.parent_path()))));
+			}
+		}
 		// every commitment this account ever held that is in the UTXO set must still be recorded
 		let recorded: BTreeSet<String> = outs.iter().map(|o| wal.commit_of(o).to_hex()).collect();
 		for (c, (root, value)) in self.seen_commits[wi].iter() {
@@ -1249,7 +1289,11 @@ impl<'a> History<'a> {
 			} else if r < 95 {
 				self.op_cancel(rng);
 			} else if r >= 93 && self.cfg.stale_coinbase && rng.chance(1, 3) {
-				self.op_stale_coinbase(rng);
+				if rng.chance(1, 3) {
+					self.op_coinbase_rerequest_other_account(rng);
+				} else {
+					self.op_stale_coinbase(rng);
+				}
 			} else if r >= 95 && self.cfg.hostile_invoice && rng.bool() {
 				self.op_hostile_invoice(rng);
 			} else if r < 97 && self.cfg.restarts {
